@@ -27,6 +27,16 @@ namespace fsh
                        << hexd(nb.distance) << ' ' << st_int(nb.status);
                 os << "\n";
             }
+            else if (kind == "rso")
+            {
+                static typename G::neighbors_raster_type reused;
+                grid.neighbors(r, c, reused);
+                os << "O qr rso " << i;
+                for (auto& nb : reused)
+                    os << ' ' << nb.flatten_idx << ' ' << nb.row << ' ' << nb.col << ' '
+                       << hexd(nb.distance) << ' ' << st_int(nb.status);
+                os << "\n";
+            }
             else if (kind == "code")
             {
                 os << "O qr code " << i << ' ' << static_cast<int>(grid.nodes_codes(i)) << ' '
